@@ -25,14 +25,20 @@ RULE = (
     "neighbour accepted within 1e-9 of a rounding boundary); millis[a:b] == seconds[a/1000:b/1000]; TypeError for a "
     "step or wrong-typed bounds. Non-trivial = len >= 2, bytes per sample > 1 and a negative or out-of-range bound."
 )
-MUST_HIT = ["view_samples", "view_seconds", "view_millis", "type_error", "negative_bound", "out_of_range", "empty_region",
+MUST_HIT = ["view_samples", "view_seconds", "view_millis", "region_carrying_a_start", "bound_with_thousands_of_digits", "type_error", "negative_bound", "out_of_range", "empty_region",
             "huge_int", "region_length_around_power_of_two", "view_of_temporary_region"]
-ASSUMPTIONS = ["floats beyond 1e15 seconds are not generated (t*rate overflows the sample index space)"]
+ASSUMPTIONS = ["floats beyond 1e15 seconds are not generated (t*rate overflows the sample index space)",
+               "the statement defines the milliseconds view through t/1000: integer millisecond bounds are generated up to 10**300 in "
+               "magnitude, where t/1000 (and its product with the rate) is still a finite float; beyond that the unchanged tree raises "
+               "OverflowError from that very division (samples / seconds views take ints of thousands of digits)"]
 BOUNDS = {"quick": dict(n=700, maxlen=12), "thorough": dict(n=15000, maxlen=16)}
 
 
 def unpack(v):
     if isinstance(v, dict):
+        if "pow10" in v:
+            # an int with thousands of digits (beyond what int -> str conversion accepts by default)
+            return (-1 if v["pow10"] < 0 else 1) * 10 ** abs(v["pow10"])
         return v["str"]
     return v
 
@@ -61,11 +67,15 @@ def check_case(case, rec):
     bps = sw * ch
     data = content(N, bps, case["salt"])
     samples = [data[i * bps: (i + 1) * bps] for i in range(N)]
-    region = auditok.AudioRegion(data, sr, sw, ch)
+    region = auditok.AudioRegion(data, sr, sw, ch) if case.get("start") is None else auditok.AudioRegion(data, sr, sw, ch, start=case["start"])
     view = case["view"]
     a, b = unpack(case["a"]), unpack(case["b"])
     step = case.get("step")
     classes = {"view_" + view}
+    if case.get("start") is not None:
+        classes.add("region_carrying_a_start")
+    if any(isinstance(case[k], dict) and abs(case[k].get("pow10", 0)) >= 4300 for k in ("a", "b")):
+        classes.add("bound_with_thousands_of_digits")
     if len(region) != N:
         raise Violation(f"len(region) {len(region)} != {N} samples", case)
     if region.duration != N / sr:
@@ -163,6 +173,11 @@ def explicit_cases():
         dict(base, view="millis", a=0.0, b=300),
         dict(base, view="seconds", a={"str": ""}, b=0.3),
         dict(base, view="samples", a={"str": ""}, b=None),
+        dict(base, view="samples", a={"pow10": 5000}, b=None), dict(base, view="samples", a={"pow10": -5000}, b={"pow10": 4400}),
+        dict(base, view="seconds", a=0, b={"pow10": 5000}), dict(base, view="millis", a={"pow10": -300}, b=-1),
+        dict(base, start=0.2, view="samples", a=-5, b=None), dict(base, start=0.2, view="seconds", a=-0.5, b=None),
+        dict(base, start=0.05, view="millis", a=-300, b=-100), dict(base, start=1.5, view="samples", a=-7, b=-2, temp="gc"),
+        dict(base, start=0.0, view="samples", a=-1, b=None), dict(base, start=0.3, view="samples", a=-100, b=3),
     ]
 
 
@@ -211,7 +226,13 @@ def strategy(draw):
             a = draw(wrong)
         else:
             b = draw(wrong)
-    return dict(base, view=view, a=a, b=b, step=step, temp=draw(st.sampled_from([None, None, "drop", "gc"])))
+    pows = [4300, 4301, 5000, -4301, -5000] if view != "millis" else [300, -300, 290]
+    if draw(rarely(12)) and not isinstance(a, dict):
+        a = {"pow10": draw(st.sampled_from(pows))}
+    elif draw(rarely(12)) and not isinstance(b, dict):
+        b = {"pow10": draw(st.sampled_from(pows))}
+    start = draw(st.one_of(st.none(), st.none(), st.sampled_from([0.0, 0.05, 0.2, 1.5, 1234.5]), st.floats(0, 3, allow_nan=False)))
+    return dict(base, view=view, a=a, b=b, step=step, temp=draw(st.sampled_from([None, None, "drop", "gc"])), start=start)
 
 
 MS_RATES = (8, 10, 100, 160, 1000, 8000, 11025, 16000, 44100, 48000)
